@@ -213,6 +213,18 @@ def check_case(case, acc):
             elif not np.allclose(got, want, rtol=1e-9, atol=1e-12, equal_nan=True):
                 j = int(np.argmax(np.abs(got - want).max(axis=0)))
                 problems.setdefault(("rows-reproduced", "values"), f"{f!r} ({variant}): {which} on rows {idx} differs from the training rows (column {j}: {got[:, j][:3]} vs {want[:, j][:3]})")
+    # chained: the object returned for one frame evaluates another frame
+    for which, M, train in mats:
+        for idx1, idx2 in (([0, 3], [5, 1, 1]), ([2], list(range(N))), (list(range(N))[::-1], [4])):
+            acc.calls += 2
+            try:
+                mid = M.evaluate_new_data(df.iloc[idx1].reset_index(drop=True))
+                got = np.asarray(mid.evaluate_new_data(df.iloc[idx2].reset_index(drop=True)).design_matrix, dtype=float)
+            except Exception as e:
+                problems.setdefault(("rows-reproduced", "chained-" + exc_sig(e)), f"{f!r} ({variant}): {which} evaluated on rows {idx1}, then that result on rows {idx2}, raised {type(e).__name__}: {e}")
+                continue
+            if got.shape != train[idx2].shape or not np.allclose(got, train[idx2], rtol=1e-9, atol=1e-12, equal_nan=True):
+                problems.setdefault(("rows-reproduced", "chained"), f"{f!r} ({variant}): {which} evaluated on rows {idx1}, then that result on rows {idx2}, differs from the training rows")
     for which, M, train in mats:
         if not np.array_equal(np.asarray(M.design_matrix, dtype=float), train, equal_nan=True):
             problems.setdefault(("training-unchanged", "values"), f"{f!r} ({variant}): training {which} matrix changed after evaluating new data")
